@@ -141,7 +141,9 @@ func c01Witnesses() []*Spec {
 		// several outputs / aliases of which the FIRST (or a later one) was removed again
 		{Regs: []Reg{mkReg("MR_S1S2S5e", godi.Singleton), {Remove: true, RmType: "S1", Tail: true}}},
 		{Regs: []Reg{mkReg("MR_S1S2S5e", godi.Singleton), {Remove: true, RmType: "S2", Tail: true}}},
-		{Regs: []Reg{mkReg("Leaf_K1_a", godi.Singleton, withAs("IK1", "IA", "IB")), {Remove: true, RmType: "IK1", Tail: true}, mkReg("InU_0_2_Iface", godi.Scoped)}},
+		{Regs: []Reg{mkReg("Leaf_K1_a", godi.Singleton, withAs("IK1", "IA", "IB")), {Remove: true, RmType: "IA", Tail: true}, mkReg("InU_0_2_Iface", godi.Scoped)}},
+		{Regs: []Reg{mkReg("Leaf_K1_a", godi.Singleton, withAs("IA", "IK1", "IB")), {Remove: true, RmType: "IA", Tail: true}, mkReg("InU_0_2_Iface", godi.Singleton), mkReg("InU_2_2_Iface", godi.Scoped)}},
+		{Regs: []Reg{mkReg("Leaf_K1_a", godi.Singleton, withAs("IK1", "IA", "IB")), {Remove: true, RmType: "IK1", Tail: true}}},
 		{Regs: []Reg{mkReg("OutP_K0K1", godi.Singleton), {Remove: true, RmType: "K0", Tail: true}, mkReg("Leaf_K0_b", godi.Transient), mkReg("PosA_2_3", godi.Scoped)}},
 		{Regs: []Reg{mkReg("MR_K0K1", godi.Singleton), {Remove: true, RmType: "K0", Tail: true}, mkReg("Leaf_K0_c", godi.Singleton), mkReg("PosA_2_3", godi.Singleton)}},
 		// ready values: several values of one concrete type, each under several aliases (told apart by key / group)
@@ -205,7 +207,10 @@ func runC01(c *eng.Ctx) {
 		}
 		c.R.End(idx, eng.Hash(kind, r.Spec.Canon(), len(r.Ops)), nt && r.Built)
 	}
-	for _, s := range c01Witnesses() {
+	for wi, s := range c01Witnesses() {
+		if m := NewModel(s); m.Class != ClsOK {
+			panic(fmt.Sprintf("harness fixture %d of C01 (witnesses) is not buildable: %s", wi, m.Class))
+		}
 		idx, mine := cr.next()
 		if !mine {
 			continue
@@ -214,6 +219,21 @@ func runC01(c *eng.Ctx) {
 		r := NewRun(s, NewModel(s), nil, nil)
 		standardScript(cr.rng(idx), r, 0)
 		finish(idx, r, "witness")
+	}
+	// every special constructor form as a singleton (plus, less often, the other lifetimes)
+	for fi, ss := range FormSpecs() {
+		if l := ss.FormLifetime(); l != godi.Singleton && fi%4 != 0 {
+			continue
+		}
+		idx, mine := cr.next()
+		if !mine {
+			continue
+		}
+		c.R.Begin(idx)
+		c.R.Count("form_specs", 1)
+		r := NewRun(ss.Spec, NewModel(ss.Spec), nil, nil)
+		standardScript(cr.rng(idx), r, 0)
+		finish(idx, r, "form:"+ss.Consumer)
 	}
 	n := c.Pick(1500, 40000)
 	for k := 0; k < n; k++ {
@@ -364,12 +384,15 @@ func runC03(c *eng.Ctx) {
 	}
 	directed := []*Spec{
 		{Regs: []Reg{mkReg("Leaf_K1_a", godi.Transient), mkReg("Twice_K0", godi.Transient), mkReg("Leaf_K1_b", godi.Transient, withGroup("g")), mkReg("Leaf_K1_c", godi.Transient, withGroup("g")), mkReg("TwiceIn_K2", godi.Scoped)}},
-		{Regs: []Reg{mkReg("Leaf_K0_a", godi.Transient), mkReg("PosA_1_1", godi.Singleton), mkReg("PosA_2_3", godi.Scoped), mkReg("PosB_3_7", godi.Transient)}},
+		{Regs: []Reg{mkReg("Leaf_K0_a", godi.Transient), mkReg("PosA_1_1", godi.Singleton), mkReg("PosA_2_3", godi.Transient), mkReg("PosB_3_7", godi.Transient)}},
 		{Regs: []Reg{mkReg("MR_K0K1", godi.Transient), mkReg("PosA_2_3", godi.Transient)}},
 		{Regs: []Reg{mkReg("Leaf_S0_a", godi.Transient), mkReg("Leaf_S5_a", godi.Transient), mkReg("Twice_S4", godi.Singleton)}},
 		{Regs: []Reg{mkReg("Leaf_K0_a", godi.Transient, withAs("IK0")), mkReg("InU_1_1_Iface", godi.Transient), mkReg("InU_2_2_Plain", godi.Scoped)}},
 	}
-	for _, s := range directed {
+	for di, s := range directed {
+		if m := NewModel(s); m.Class != ClsOK {
+			panic(fmt.Sprintf("harness fixture %d of C03 (directed) is not buildable: %s", di, m.Class))
+		}
 		idx, mine := cr.next()
 		if !mine {
 			continue
@@ -378,6 +401,21 @@ func runC03(c *eng.Ctx) {
 		r := NewRun(s, NewModel(s), nil, nil)
 		standardScript(cr.rng(idx), r, 0)
 		finish(idx, r, "directed")
+	}
+	// every special constructor form as a transient (plus, less often, the other lifetimes)
+	for fi, ss := range FormSpecs() {
+		if l := ss.FormLifetime(); l != godi.Transient && fi%4 != 0 {
+			continue
+		}
+		idx, mine := cr.next()
+		if !mine {
+			continue
+		}
+		c.R.Begin(idx)
+		c.R.Count("form_specs", 1)
+		r := NewRun(ss.Spec, NewModel(ss.Spec), nil, nil)
+		standardScript(cr.rng(idx), r, 0)
+		finish(idx, r, "form:"+ss.Consumer)
 	}
 	n := c.Pick(1500, 40000)
 	for k := 0; k < n; k++ {
